@@ -502,24 +502,26 @@ class BodyPartReader:
         else:
             line = await self._content.readline()
 
-        if line.startswith(self._boundary):
-            # the very last boundary may not come with \r\n,
-            # so set single rules for everyone
-            sline = line.rstrip(b"\r\n")
-            boundary = self._boundary
-            last_boundary = self._boundary + b"--"
-            # ensure that we read exactly the boundary, not something alike
-            if sline == boundary or sline == last_boundary:
-                self._at_eof = True
-                self._unread.append(line)
-                return b""
-        else:
-            next_line = await self._content.readline()
-            if next_line.startswith(self._boundary):
-                line = line[:-2]  # strip CRLF but only once
-            self._unread.append(next_line)
+        if self._is_delimiter_line(line):
+            self._at_eof = True
+            self._unread.append(line)
+            return b""
+
+        next_line = await self._content.readline()
+        if self._is_delimiter_line(next_line):
+            line = line[:-2]  # strip CRLF but only once
+        self._unread.append(next_line)
 
         return line
+
+    def _is_delimiter_line(self, line: bytes) -> bool:
+        if not line.startswith(self._boundary):
+            return False
+        # the very last boundary may not come with \r\n,
+        # so set single rules for everyone
+        sline = line.rstrip(b"\r\n")
+        # ensure that we read exactly the boundary, not something alike
+        return sline == self._boundary or sline == self._boundary + b"--"
 
     async def release(self) -> None:
         """Like read(), but reads all the data to the void."""
